@@ -41,9 +41,50 @@ SETS = {
         "edition": "2024",
         "bounded": True,
         "bound": "ropes of one inner node (Slice, Concat, Tiled; count <= 3) over Owned leaves of at most 3 symbolic bytes, plus Owned and Zeroed alone; every byte value and every offset <= len + 1",
-        "quick": False,
+        "quick": True,
     },
 }
+
+
+SETS["allocator"] = {
+    "custom": "allocator",
+    "harness_file": "allocator.harness.rs",
+    "harnesses": ["two_allocations_never_alias", "pending_free_never_frees_counted"],
+    "edition": "2024",
+    "bounded": True,
+    "bound": "heaps of at most 3 slots (every wf combination of counts <= 2 / freed flags / free list), at most 3 queued frees with duplicates, two consecutive allocations",
+    "quick": False,
+}
+
+
+def _gen_allocator():
+    """struct Executor reduced to its heap fields + allocate_binary_data + process_pending_free, verbatim."""
+    parts = ["use std::rc::Rc;\npub trait Effect {}\n"]
+    prov = []
+
+    def cut(rel, kind, name, keep=None, extra=None, derive=None):
+        d = extract.Directive("cut", [kind, name, "from", rel] + (["keep=" + keep] if keep else []) + (["extra=" + extra] if extra else []) + (["derive=" + derive] if derive else []), "kani:allocator")
+        out, info, _ = extract.gen_cut(d, ["crate::binary::", "crate::value::", "crate::error::"])
+        prov.append(info)
+        return out
+
+    extract.Source.reset()
+    parts.append(cut("quiver-core/src/binary.rs", "const", "MAX_BINARY_SIZE"))
+    parts.append("#[derive(Debug, Clone, PartialEq)]\n" + cut("quiver-core/src/binary.rs", "enum", "BinaryData"))
+    parts.append("#[derive(Debug, Clone, Copy, PartialEq)]\n" + cut("quiver-core/src/value.rs", "enum", "Binary"))
+    parts.append("#[derive(Debug)]\n" + cut("quiver-core/src/error.rs", "enum", "Error"))
+    parts.append(cut("quiver-core/src/executor.rs", "struct", "Executor", keep="heap,refcounts,free,pending_free,freed,reclaimed", extra="    pub _e: core::marker::PhantomData<E>,"))
+    for rel, ty, fns in (("quiver-core/src/binary.rs", "BinaryData", ["new", "len"]), ("quiver-core/src/executor.rs", "Executor", ["allocate_binary_data", "process_pending_free"])):
+        S = extract.Source.get(rel)
+        body = []
+        for fn in fns:
+            it, _ = rs.find_fn(S.src, S.mask, ty + "::" + fn)
+            text = S.src[it.start : it.end]
+            prov.append({"item": "fn %s::%s" % (ty, fn), "file": rel, "lines": [rs.line_of(S.src, it.start), rs.line_of(S.src, it.end)], "sha256": hashlib.sha256(text.encode()).hexdigest()})
+            body.append(text)
+        hdr = "impl BinaryData" if ty == "BinaryData" else "impl<E: Effect> Executor<E>"
+        parts.append("%s {\n%s\n}\n" % (hdr, "\n\n".join(body)))
+    return "\n".join(parts), prov
 
 
 def kani_version():
@@ -56,6 +97,20 @@ def kani_version():
 
 def generate(name):
     spec = SETS[name]
+    if spec.get("custom") == "allocator":
+        main, prov = _gen_allocator()
+        with open(os.path.join(ROOT, "contracts", "kani", spec["harness_file"])) as f:
+            main = main + "\n" + f.read()
+        d = os.path.join(BUILD, name)
+        os.makedirs(os.path.join(d, "src"), exist_ok=True)
+        os.makedirs(os.path.join(d, ".cargo"), exist_ok=True)
+        with open(os.path.join(d, "Cargo.toml"), "w") as f:
+            f.write('[package]\nname = "verif_%s"\nversion = "0.1.0"\nedition = "%s"\n[workspace]\n' % (name, spec["edition"]))
+        with open(os.path.join(d, ".cargo", "config.toml"), "w") as f:
+            f.write("[net]\noffline = true\n")
+        with open(os.path.join(d, "src", "main.rs"), "w") as f:
+            f.write(main)
+        return d, main, prov
     src_path = os.path.join(extract.REPO, spec["file"])
     with open(src_path) as f:
         src = f.read()
